@@ -8,6 +8,12 @@ Status: PARTIAL by construction of the proof/oracle split.
     HitEnum, and QryStartPos/QryEndPos exchanged.  Also with the strands exchanged.
   * NOT provable in the model (outside it): the seeding half, i.e. that q on '+' and mirror(q) on '-' get the SAME seed peaks
     (bit-vector reversal, FFT cross-correlation, scipy.signal.find_peaks, top-N selection).  The end-to-end stream below exercises it.
+  * REFUTED as a whole on exact ties (open finding F14, coq: C11_first_pass_mirror_refuted): the arrays of (mirror(q), strand s) are
+    bit for bit those of (q, not s) (measured on every molecule of `e2e_mirror_ties`; exact arithmetic: C11_seeding_mirror), so the run
+    of mirror(q) is the run of q with the strands of each reference enumerated in the opposite order; the stable sort of selectPeaks
+    and the first-maximum of __getBestAlignment make that order visible when two seeds on opposite strands of one reference have
+    exactly equal float scores (a reference whose bit vector is a palindrome; a query whose primary bit vector is a palindrome).
+    `e2e_mirror_ties` generates such data, routes exactly this signature (tie_analysis) to F14 and reports anything else.
 """
 import os, json, random
 from ..driver import Stream
@@ -23,12 +29,21 @@ RULE = ('(a) Aligner.align pairs (case, mirror image of the case on the opposite
         'A second stream OFF the hypothesis (ties: d >= step/2 or coordinates off the lattice) is only compared with the model and classified '
         '(symmetric / asymmetric), without oracle. (b) end to end: lattice data sets (2 references x 200 labels, 12 (quick) / 20 (thorough) query molecules each present '
         'with its mirror image under another id), COMA in `separate` mode, record of q vs record of mirror(q) from the XMAP text. '
-        'non-trivial = distinct case with >= 2 non-empty segments before conflict resolution (a) / data set with >= 8 compared record pairs (b)')
+        '(c) end to end on TIE-RICH lattice data (e2e_mirror_ties: palindromic references with the first label at 0 or shifted inside, palindromic '
+        'windows and molecules, a reference and its mirror image, inverted duplicates, periodic references, repeated blocks; peaksCount 1, 2, 3, 6): '
+        'same record comparison; additionally the primary seed peaks of mirror(q) must be those of q with the strands exchanged bit for bit; an '
+        'asymmetry is routed to the open finding F14 only if the recomputed seeds and captured candidates show an exact score tie between the '
+        'strands of one reference decided by enumeration order; for a palindromic molecule (mirror(q) = q) the two records must be identical. '
+        'non-trivial = distinct case with >= 2 non-empty segments before conflict resolution (a) / data set with >= 8 compared record pairs (b) / >= 6 (c)')
 TRUSTED = ['adapter harness/pipeline.py (builds OpticalMap/Peak/Aligner objects, canonicalises segments)',
            'end-to-end: harness/e2e.py (CMAP writer, independent XMAP text parser, COMA run in a subprocess with capture extensions)']
 ASSUMPTIONS = ['all label coordinates are multiples of 1400 (hence of both correlation resolutions) and maxPairDistance < 700: then no label has two '
                'partners within reach (coq: C11_lattice_no_ties) — the hypothesis of the theorems',
                'the seeding half (same seed peaks for q on + and mirror(q) on -) is outside the Coq model: covered by the end-to-end oracle only',
+               'a palindromic molecule (mirror(q) has the labels of q) is outside the property: no deterministic program can report two different '
+               'records for two identical molecules; the oracle demands identical records there',
+               'F14 (known_findings.json): exact score ties between the two strands of one reference are decided by enumeration order; such '
+               'asymmetries are reported as KNOWN-FINDING when tie_analysis confirms every clause of the signature',
                'parameters lie on the exact grid, so the float arithmetic of the implementation is exact (join-score division: C14)']
 
 
@@ -391,4 +406,316 @@ class E2EMirror(Stream):
         return json.dumps(case, sort_keys=True) if out.get('compared', 0) >= 8 else None
 
 
-STREAMS = [MirrorAlign(), MirrorAlignTies(), E2EMirror()]
+
+# ------------------------------------------------------------------------------------------------ end to end, tie-rich lattice data
+# Exact ties are where ORDER-based tie-breaks of the seeding stage become visible.  For a lattice query q the bit vectors of mirror(q) are
+# exactly the reversed bit vectors of q, so the correlation arrays of (mirror(q), strand s) are BITWISE those of (q, strand not s): the
+# run of mirror(q) is the run of q with, for every reference, the two strands enumerated in the opposite order
+# (_WorkflowCoordinator.__getPrimaryCorrelations yields forward before reverse).  The order matters only between seed peaks of one
+# reference on opposite strands whose float scores are exactly equal (finding F14); the families below provoke every kind of exact tie:
+TIE_FAMILIES = ['palin_ref0', 'palin_ref_off', 'palin_query', 'mirror_refs', 'invdup', 'periodic', 'blocks']
+GAPS = [2, 3, 4, 5, 6, 7, 8, 9, 10, 12, 14]
+
+
+def _walk(start, gaps):
+    pos = [start]
+    for g in gaps:
+        pos.append(pos[-1] + g)
+    return pos
+
+
+def _ref(rid, pos, tail=5 * STEP):
+    return (rid, float(pos[-1] + tail), [float(p) for p in pos])
+
+
+def gen_ties_dataset(rng, family, nq=10):
+    """lattice data (all labels on multiples of 1400) with exact ties; every query also as its mirror image (id + 1000).
+    palin_ref0     reference 1 is a palindrome whose first label is at 0 (the bit vector itself is a palindrome: the reverse-strand
+                   correlation is the forward one read backwards, every seed has an exactly tied twin on the other strand at the mirror locus)
+    palin_ref_off  the same with the first label 1-10 lattice steps inside (the vector is not a palindrome: the r.m.s. levels differ)
+    palin_query    generic references containing palindromic windows; some queries are such a window (mirror(q) = q as a molecule)
+    mirror_refs    reference 2 is the mirror image of reference 1
+    invdup         inverted duplicates of windows inside a generic reference
+    periodic       a reference that repeats one block of gaps (many exactly equal peaks within one correlation)
+    blocks         copies of a block at several places of two references (equal peaks within and across correlations)"""
+    g = lambda n: [STEP * rng.choice(GAPS) for _ in range(n)]
+    ids = sorted(rng.sample(range(1, 30), 2))
+    windows = []           # (reference index, first label index, number of labels) to cut exact queries from
+    if family in ('palin_ref0', 'palin_ref_off'):
+        half = g(rng.randint(60, 100))
+        mid = [] if rng.random() < 0.5 else [STEP * rng.choice(GAPS)]
+        first = 0 if family == 'palin_ref0' else STEP * rng.choice([1, 1, 2, 3, 10])
+        refs = [_ref(ids[0], _walk(first, half + mid + half[::-1]), tail=STEP * rng.choice([0, 5]) if family == 'palin_ref0' else 5 * STEP),
+                _ref(ids[1], _walk(STEP * 3, g(150)))]
+        n1 = len(refs[0][2])
+        for _ in range(2):      # a window centred on the centre of the palindrome (tie at one and the same place)
+            w = rng.randint(5, 12)
+            windows.append((0, n1 // 2 - w, 2 * w + (n1 % 2)))
+    elif family == 'palin_query':
+        refs = []
+        for rid in ids:
+            gaps = g(40)
+            for _ in range(3):
+                h = g(rng.randint(4, 9)); mid = [] if rng.random() < 0.5 else [STEP * rng.choice(GAPS)]
+                windows.append((len(refs), len(gaps), 2 * len(h) + len(mid) + 1))
+                gaps += h + mid + h[::-1] + g(rng.randint(15, 40))
+            refs.append(_ref(rid, _walk(STEP * rng.choice([1, 3, 10]), gaps)))
+    elif family == 'mirror_refs':
+        pos = _walk(STEP * 2, g(180))
+        refs = [_ref(ids[0], pos, tail=2 * STEP), _ref(ids[1], [pos[-1] + 2 * STEP - p for p in pos[::-1]], tail=2 * STEP)]
+    elif family == 'invdup':
+        gaps = g(60)
+        for _ in range(3):
+            blk = g(rng.randint(10, 18))
+            windows.append((0, len(gaps), len(blk) + 1))
+            gaps += blk + g(rng.randint(10, 30)) + blk[::-1] + g(rng.randint(10, 30))
+        refs = [_ref(ids[0], _walk(STEP * 3, gaps)), _ref(ids[1], _walk(STEP, g(150)))]
+    elif family == 'periodic':
+        blk = g(rng.randint(3, 9))
+        refs = [_ref(ids[0], _walk(STEP * rng.choice([0, 1, 4]), blk * rng.randint(8, 20) + g(20))),
+                _ref(ids[1], _walk(STEP * 2, g(20) + blk[::-1] * rng.randint(4, 10)))]
+    else:
+        blk = g(rng.randint(8, 16))
+        ga = g(20); gb = g(20)
+        for _ in range(3):
+            windows.append((0, len(ga), len(blk) + 1))
+            ga += blk + g(rng.randint(5, 25))
+        for _ in range(2):
+            gb += (blk if rng.random() < 0.5 else blk[::-1]) + g(rng.randint(5, 25))
+        refs = [_ref(ids[0], _walk(STEP * 2, ga)), _ref(ids[1], _walk(STEP * 5, gb))]
+    qs = []; truth = {}; qid = rng.randint(1, 300)
+    for k in range(nq):
+        if windows and (k < len(windows) or rng.random() < 0.3):
+            ri, a, n = windows[k] if k < len(windows) else rng.choice(windows)
+            kind = 'window'
+        else:
+            ri = rng.randrange(len(refs)) if family not in ('palin_ref0', 'palin_ref_off') or rng.random() < 0.2 else 0
+            n = rng.randint(8, 40); a = rng.randint(0, max(0, len(refs[ri][2]) - n))
+            kind = 'cut'
+        rp = refs[ri][2]
+        w = rp[a:a + n]
+        q = [p - w[0] for p in w]
+        if rng.random() < 0.4:
+            kind += '-noisy'
+            keep = [p for p in q if rng.random() > 0.12]
+            q = sorted(set(keep + [STEP * rng.randint(0, int(q[-1] // STEP)) for _ in range(rng.randint(0, 3))]))
+        if len(q) < 6:
+            continue
+        q = [p - q[0] for p in q]
+        if rng.random() < 0.5:
+            q = [q[-1] - p for p in q[::-1]]
+        m = [q[-1] - p for p in q[::-1]]
+        off = rng.choice([0.0, 20.0, 1400.0, 1234.5]); tail = rng.choice([0.0, 0.0, 500.0])
+        qa = [float(p + off) for p in q]; ma = [float(p + off) for p in m]
+        qs.append((qid, qa[-1] + tail, qa)); qs.append((qid + MIRROR_ID, ma[-1] + tail, ma))
+        truth[qid] = dict(kind=kind + ('-palindrome' if q == m else ''), ref=refs[ri][0], n=len(qa), palindrome=(q == m))
+        qid += rng.choice([1, 1, 7])
+    return dict(refs=refs, queries=qs, truth=truth, kind='ties-' + family)
+
+
+
+def first_pass_candidates(cap, q):
+    """captured first-pass candidates of molecule q: ({index: refined correlation}, {index: candidate row}) (see stage_of_difference)"""
+    corr, rows = {}, {}
+    for c in cap:
+        if c['q'] != q or c['shift'] != 0:
+            continue
+        tgt = corr if c['t'] == 'corr' else rows if c['t'] == 'row' else None
+        if tgt is None:
+            continue
+        if c['index'] in tgt:
+            tgt['closed'] = True
+        if not tgt.get('closed'):
+            tgt[c['index']] = c
+    corr.pop('closed', None); rows.pop('closed', None)
+    return corr, rows
+
+
+def primary_seeds(ds_dir, extra, qids):
+    """INDEPENDENT RECOMPUTATION of the primary seeds with the code's own classes (CmapReader, OpticalMap.getInitialAlignment on both strands
+    of every reference in the coordinator's order, PeaksSelector.selectPeaks): for every molecule in qids
+    dict(all=[[reference id, reverse strand, position, score as float.hex()]...] in enumeration order, sel=the selected ones in order)"""
+    from src.args import Args
+    from src.parsers.cmap_reader import CmapReader
+    from src.correlation.sequence_generator import SequenceGenerator
+    from src.correlation.peaks_selector import PeaksSelector
+    rp, qp = os.path.join(ds_dir, 'r.cmap'), os.path.join(ds_dir, 'q.cmap')
+    args = Args.parse(['-r', rp, '-q', qp, '-o', os.devnull, '-pb', '-c', '1'] + [str(x) for x in extra])
+    for f in (args.referenceFile, args.queryFile, args.outputFile):
+        try: f.close()
+        except Exception: pass
+    with open(rp) as f: refs = CmapReader().readReferences(f, None)
+    with open(qp) as f: qs = {int(m.moleculeId): m.trim() for m in CmapReader().readQueries(f, None)}
+    prim = SequenceGenerator(args.primaryResolution, args.primaryBlur)
+    out = {}
+    for qid in qids:
+        q = qs.get(qid)
+        if q is None:
+            continue
+        corrs = []
+        for r in refs:
+            for rev in (False, True):
+                c = q.getInitialAlignment(r, prim, args.minPeakDistance, args.peaksCount, reverseStrand=rev)
+                if any(c.peaks):
+                    corrs.append((int(r.moleculeId), rev, c))
+        key = {id(c): (rid, rev) for rid, rev, c in corrs}
+        rec = lambda c, p: [key[id(c)][0], key[id(c)][1], float(p.position), float(p.score).hex()]
+        sel = PeaksSelector(args.peaksCount).selectPeaks(iter(c for _, _, c in corrs))
+        out[qid] = dict(all=[rec(c, p) for _, _, c in corrs for p in c.peaks], sel=[rec(s.primaryCorrelation, s.peak) for s in sel])
+    return out
+
+
+def _best_index(rows):
+    """__getBestAlignment: the first candidate of maximal confidence, in the order of the selected seeds"""
+    ks = sorted(rows)
+    return max(ks, key=lambda k: (rows[k]['conf'], -k)) if ks else None
+
+
+def _row_is_record(row, rec, mirrored):
+    """a captured candidate row against a record of the XMAP text (mirrored: the record is expected to be the row's mirror image)"""
+    qs_, qe_ = (row['hdr'][1], row['hdr'][0]) if mirrored else (row['hdr'][0], row['hdr'][1])
+    return (row['r'] == rec['r'] and (row['rev'] != (rec['ori'] == '-')) == mirrored and round(row['conf'], 2) == float(rec['conf']) and row['cigar'] == rec['hit']
+            and float(rec['rs']) == row['hdr'][2] and float(rec['re']) == row['hdr'][3] and float(rec['qs']) == qs_ and float(rec['qe']) == qe_)
+
+
+def tie_analysis(seeds_q, seeds_m, rows_q, rows_m, a, b):
+    """is the asymmetry between record a (molecule q) and record b (mirror(q)) the order-decided choice among EXACTLY TIED candidates (F14)?
+    Returns (True, description) only if ALL of the following hold on the recomputed seeds and the captured candidate rows:
+      1. the seed peaks of mirror(q) are those of q with the strands exchanged, positions and scores bit for bit;
+      2. the reported records are the first maximal-confidence candidates, their Confidence is equal, both are on the FORWARD strand of the
+         same reference, and the float scores of their two seeds are exactly equal;
+      3. the seed mirror(q) was reported from is, seen from q, a seed on the REVERSE strand of that reference with exactly that score
+         (q's two tied seeds on opposite strands), and vice versa;
+      4. where q's tied reverse-strand seed was among q's selected seeds, its candidate row is the mirror image of record b (so b is a
+         candidate C11 permits, only not the one enumerated first), and likewise for mirror(q) and record a."""
+    if seeds_q is None or seeds_m is None:
+        return False, 'no recomputed seeds'
+    flip = lambda l: sorted([x[0], not x[1], x[2], x[3]] for x in l)
+    if flip(seeds_m['all']) != sorted(seeds_q['all']):
+        return False, 'the seed peaks of mirror(q) are NOT those of q with the strands exchanged (mechanism B: the arrays differ)'
+    for rows, sd in ((rows_q, seeds_q), (rows_m, seeds_m)):
+        if sorted(rows) != list(range(len(sd['sel']))) or any((rows[k]['r'], rows[k]['rev']) != (sd['sel'][k][0], sd['sel'][k][1]) for k in rows):
+            return False, 'captured candidate rows do not correspond to the recomputed selected seeds'
+    ia, ib = _best_index(rows_q), _best_index(rows_m)
+    if ia is None or ib is None or not _row_is_record(rows_q[ia], a, False) or not _row_is_record(rows_m[ib], b, False):
+        return False, 'the records are not the first maximal-confidence candidates'
+    sa, sb = seeds_q['sel'][ia], seeds_m['sel'][ib]
+    if a['conf'] != b['conf'] or rows_q[ia]['conf'] != rows_m[ib]['conf']:
+        return False, 'confidences differ'
+    if sa[0] != sb[0] or sa[1] or sb[1]:
+        return False, 'the two reports are not both on the forward strand of one reference'
+    if sa[3] != sb[3]:
+        return False, 'seed scores differ (%s vs %s)' % (sa[3], sb[3])
+    twin_q = [sb[0], True, sb[2], sb[3]]; twin_m = [sa[0], True, sa[2], sa[3]]
+    if twin_q not in seeds_q['all'] or twin_m not in seeds_m['all']:
+        return False, 'no exactly tied seed on the opposite strand'
+    for twin, sd, rows, rec in ((twin_q, seeds_q, rows_q, b), (twin_m, seeds_m, rows_m, a)):
+        if twin in sd['sel'] and not _row_is_record(rows[sd['sel'].index(twin)], rec, True):
+            return False, 'the tied candidate on the reverse strand is not the mirror image of the other record'
+    return True, ('exact tie: seeds (ref %d, +, %.0f) and (ref %d, -, %.0f) of the molecule have the same score %s = %.17g and their rows the same Confidence %s; '
+                  'both molecules report the one enumerated first (forward strand)%s' % (
+                      sa[0], sa[2], sb[0], sb[2], sa[3], float.fromhex(sa[3]), a['conf'], '; same place: tie between the strands at one locus' if sa[2] == sb[2] else ''))
+
+
+F14_TAG = '[F14-EXACT-TIE: '
+
+
+class E2EMirrorTies(Stream):
+    """tie-rich lattice data through the real program (see TIE_FAMILIES); oracle = the C11 statement, record of q vs record of mirror(q).
+    A violation is routed to the open finding F14 only when tie_analysis (recomputed seeds + captured candidates) shows the cause.
+    A palindromic molecule (mirror(q) has the same labels as q) cannot satisfy the statement under any deterministic program: there the
+    oracle demands the two records to be identical."""
+    name = 'e2e_mirror_ties'
+    model = False
+    quick_fam = ['palin_ref0', 'palin_ref0', 'palin_ref_off', 'palin_query', 'palin_query', 'mirror_refs', 'invdup', 'periodic', 'blocks']
+
+    def gen(self, rng, tier):
+        base = seeded_rng(getattr(self, 'seed', 0), 'C11-e2e-ties')
+        fams = self.quick_fam if tier == 'quick' else TIE_FAMILIES * 4
+        extras = [['-d', '650'], [], ['-d', '699', '-p', '6'], ['-d', '500', '-p', '1'], ['-d', '650', '-p', '2']]
+        return [dict(ds_seed=base.randint(1, 10 ** 9), nq=10 if tier == 'quick' else 14, family=f,
+                     extra=extras[0] if tier == 'quick' and k < 2 else extras[k % len(extras)]) for k, f in enumerate(fams)]
+
+    def impl(self, case):
+        ds = gen_ties_dataset(random.Random(case['ds_seed']), case['family'], nq=case['nq'])
+        e2e.materialise(ds, 'c11t_%s_%d_%d' % (case['family'], case['ds_seed'], case['nq']))
+        r = e2e.run_coma(os.path.join(ds['dir'], 'r.cmap'), os.path.join(ds['dir'], 'q.cmap'), ['-oM', 'separate'] + list(case['extra']),
+                         cpus=1, capture=True)
+        out = dict(rc=r.rc, stderr=r.stderr[-400:] if r.rc else '', pairs=[], compared=0, both_absent=0, seed_mismatch=[])
+        if r.rc != 0:
+            return out
+        recs = {}
+        for x in r.records('main') or []:
+            recs.setdefault(x['q'], []).append({k: v for k, v in x.items() if k != 'raw'})
+        cap = r.capture
+        seeds = primary_seeds(ds['dir'], case['extra'], [m[0] for m in ds['queries']])
+        for qid, t in sorted(ds['truth'].items()):
+            mid = qid + MIRROR_ID
+            sq, sm = seeds.get(qid), seeds.get(mid)
+            # the seeding half, measured on every molecule: same seed peaks with the strands exchanged, bit for bit
+            if sq is None or sm is None or sorted([x[0], not x[1], x[2], x[3]] for x in sm['all']) != sorted(sq['all']):
+                out['seed_mismatch'].append(qid)
+            a = recs.get(qid, []); b = recs.get(mid, [])
+            if not a and not b:
+                out['both_absent'] += 1
+                continue
+            out['compared'] += 1
+            ent = dict(q=qid, kind=t['kind'], palindrome=t['palindrome'], npairs=len(a[0]['pairs']) if a else 0)
+            if len(a) != 1 or len(b) != 1:
+                diff = ['%d record(s) for molecule %d, %d for its mirror image %d' % (len(a), qid, len(b), mid)]
+            elif t['palindrome']:
+                keys = ('r', 'ori', 'conf', 'hit', 'rs', 're', 'qs', 'qe', 'pairs', 'qlen', 'rlen')
+                diff = ['palindromic molecule: the records of the two identical molecules differ in %s' % k for k in keys if a[0][k] != b[0][k]]
+            else:
+                diff = compare_records(a[0], b[0], t['n'])
+            ent['diff'] = diff
+            if diff:
+                ent['stage'] = stage_of_difference(cap, qid, mid)
+                ent['a'] = a[:1]; ent['b'] = b[:1]
+                ent['molecule'] = [m for m in ds['queries'] if m[0] == qid][0]
+                ent['mirror'] = [m for m in ds['queries'] if m[0] == mid][0]
+                if len(a) == 1 and len(b) == 1 and not t['palindrome']:
+                    ok, why = tie_analysis(sq, sm, first_pass_candidates(cap, qid)[1], first_pass_candidates(cap, mid)[1], a[0], b[0])
+                    ent['tie'] = dict(f14=ok, why=why)
+            out['pairs'].append(ent)
+        return out
+
+    def oracle(self, case, out):
+        if out['rc'] != 0:
+            return ['COMA exited with status %s: %s' % (out['rc'], out['stderr'][-300:])]
+        errs = []
+        if out['seed_mismatch']:
+            errs.append('the primary seed peaks of mirror(q) are not those of q with the strands exchanged (positions and scores bit for bit) for '
+                        'molecule(s) %s' % out['seed_mismatch'][:5])
+        routed = []
+        for e in out['pairs']:
+            if e['diff']:
+                msg = 'molecule %d (%s) and its mirror image %d are not aligned mirror-symmetrically: %s [stage: %s]' % (
+                    e['q'], e['kind'], e['q'] + MIRROR_ID, '; '.join(e['diff'][:3]), e.get('stage'))
+                tie = e.get('tie') or {}
+                if tie.get('f14'):
+                    routed.append(msg + ' ' + F14_TAG + tie['why'] + ']')
+                else:
+                    errs.append(msg + (' [not the F14 signature: %s]' % tie['why'] if tie else ''))
+        return errs[:4] + routed[:2]
+
+    def finding(self, case, out, viol):
+        return 'F14' if F14_TAG in viol else None
+
+    def classify(self, case, out):
+        k = ['family=%s' % case['family'], 'params=%s' % (' '.join(case['extra']) or 'default'), 'compared_pairs=%d' % out.get('compared', 0)]
+        for e in out.get('pairs', []):
+            if e['palindrome']:
+                k.append('%s:palindromic molecule (C11 unsatisfiable): %s' % (case['family'], 'identical records' if not e['diff'] else 'RECORDS DIFFER'))
+            else:
+                k.append('%s:%s' % (case['family'], 'symmetric' if not e['diff'] else 'ASYMMETRIC, exact tie between the strands (F14)' if (e.get('tie') or {}).get('f14')
+                                    else 'ASYMMETRIC, unexplained'))
+        if not out.get('seed_mismatch') and out.get('rc') == 0:
+            k.append('seed peaks of mirror(q) = seed peaks of q with strands exchanged, bit for bit (all molecules of the data set)')
+        return k
+
+    def nontrivial(self, case, out):
+        return json.dumps(case, sort_keys=True) if out.get('compared', 0) >= 6 else None
+
+
+STREAMS = [MirrorAlign(), MirrorAlignTies(), E2EMirror(), E2EMirrorTies()]
